@@ -161,6 +161,14 @@ public:
     // multiply the stored target values (used to probe the numerical stability of a fit; call before load())
     void target_scale(double scale) { m_target_scale = scale; }
 
+    // every continuous target value is multiplied by its own factor 1 + amplitude * u, u in [-1, 1] drawn from the seed
+    // (a probe for numerical near-ties: far below anything a user could mean, far above re-association noise)
+    void target_noise(uint64_t seed, double amplitude)
+    {
+        m_target_noise_seed = seed;
+        m_target_noise      = amplitude;
+    }
+
     // reference copy: per stored feature (schema order), per sample: vector of values; empty = missing
     const std::vector<std::vector<std::vector<double>>>& stored() const { return m_stored; }
 
@@ -241,6 +249,14 @@ private:
                         v *= m_target_scale;
                     }
                 }
+                if (f == m_schema.target && m_target_noise_seed != 0 && feat.type() != feature_type::sclass && feat.type() != feature_type::mclass)
+                {
+                    rng_t noise(mix(m_target_noise_seed, static_cast<uint64_t>(s) + 1));
+                    for (auto& v : vals)
+                    {
+                        v *= 1.0 + m_target_noise * (2.0 * noise.unit() - 1.0);
+                    }
+                }
                 if (feat.type() == feature_type::sclass)
                 {
                     set(s, static_cast<tensor_size_t>(f), static_cast<int64_t>(vals[0]));
@@ -310,6 +326,8 @@ private:
     bool                                             m_target_given;
     int                                              m_value_mode;
     double                                           m_target_scale{1.0};
+    uint64_t                                         m_target_noise_seed{0};
+    double                                           m_target_noise{0.0};
     std::vector<std::vector<std::vector<double>>>    m_stored;
 };
 
